@@ -12,6 +12,7 @@ Driver for correspondence stream `asm` (property C01).  Requests:
   entry2  <S1ndofs> <S0ndofs> <suppU> <suppV> <ofs> i j <N> <F>
                                      -> "empty <full>" | "box <sum> <abssum> <count> <full>"
   entry1  <S0ndofs> <suppV> <ofs> i <N> <F>   -> "box <sum> <abssum> <count> <full>"
+  islin   bf <kernel expression, prefix>      -> 1 | 0   (KExpr.IsLinearIn: syntactically linear in basis function bf)
 where a support table is a list (per axis) of lists of `a b` pairs, `<N>` is the shape of the
 assembler's local node grid and `<F>` the C-ordered table of the summand `w·integrand` for this
 (i, j) at every local node (exact rationals).  `full` = sum over the whole table.
@@ -19,8 +20,10 @@ assembler's local node grid and `<F>` the C-ordered table of the summand `w·int
 import Pyiga.Proto
 import Pyiga.Model.Layout
 import Pyiga.Model.Assembler
+import Pyiga.Model.KernelExpr
 
 open Pyiga Pyiga.Proto Pyiga.Index Pyiga.Layout Pyiga.Asm
+open Pyiga.KExpr (KExpr)
 
 def pVar : P Var := do
   let shape ← list nat
@@ -40,6 +43,23 @@ def showBox (g : List (Nat × Nat)) (N : List Nat) (F : Array Rat) : String :=
   let cnt := prod (g.map (fun p => p.2 - p.1))
   let full := F.foldl (· + ·) 0
   s!"box {showRat s} {showRat a} {cnt} {showRat full}"
+
+/-- prefix-notation kernel expression: `c q | f k | p bf D | n e | + e e | - e e | * e e | / e e | F k e` -/
+def pKExpr : Nat → P (KExpr Rat)
+  | 0 => failure
+  | fuel + 1 => do
+    let t ← tok
+    match t with
+    | "c" => do let q ← rat; pure (.const q)
+    | "f" => do let k ← nat; pure (.field k)
+    | "p" => do let b ← nat; let d ← nat; pure (.pderiv b d)
+    | "n" => do let x ← pKExpr fuel; pure (.neg x)
+    | "+" => do let x ← pKExpr fuel; let y ← pKExpr fuel; pure (.add x y)
+    | "-" => do let x ← pKExpr fuel; let y ← pKExpr fuel; pure (.sub x y)
+    | "*" => do let x ← pKExpr fuel; let y ← pKExpr fuel; pure (.mul x y)
+    | "/" => do let x ← pKExpr fuel; let y ← pKExpr fuel; pure (.div x y)
+    | "F" => do let k ← nat; let x ← pKExpr fuel; pure (.fn k x)
+    | _ => failure
 
 def request : P String := do
   let op ← tok
@@ -79,6 +99,11 @@ def request : P String := do
       let nd ← list nat
       if nd.isEmpty || nd.any (· == 0) then failure
       pure (showNats ((vectorVisits nd (prod nd) (nd.map (fun _ => 0))).map (fun I => toSeq I nd)))
+  | "islin" => do
+      let bf ← nat
+      let toks ← get
+      let e ← pKExpr (toks.length + 1)
+      pure (if Pyiga.KExpr.IsLinearIn bf e then "1" else "0")
   | "entry2" => do
       let s1 ← list nat; let s0 ← list nat
       let su ← pSupp; let sv ← pSupp; let ofs ← list nat
